@@ -132,6 +132,12 @@ func genBatch(r *rand.Rand, mode string) (BatchCfg, *BatchScript) {
 		c.C, c.Items = 1, 8
 		c.N, c.Fb, c.StopMode, c.Sched, c.Via, c.Shape = 1, false, true, "free0", "builder", "results"
 		pFail = 0
+	case "cancelfeed": // the context is cancelled while the feeding loop is still submitting and an earlier item is in flight
+		c.C = 2 + r.Intn(2)
+		c.Items = 3*c.C + 3
+		c.N, c.W, c.Fb, c.StopMode, c.Sched, c.Via, c.Shape = 1, 0, false, r.Intn(2) == 0, "cancelfeed", "builder", "results"
+		c.Cancel, c.CtxKind = true, []string{"cancel", "cause", "deadline"}[r.Intn(3)]
+		pFail = 0
 	case "waitcancel": // an item waits between two attempts while another item's exec cancels the context
 		c.C, c.Items = 2, 2
 		c.N, c.W, c.Fb, c.StopMode, c.Sched, c.Via, c.Shape = 2, 40, false, false, "waitcancel", "builder", "results"
@@ -218,6 +224,9 @@ func genBatch(r *rand.Rand, mode string) (BatchCfg, *BatchScript) {
 	}
 	if mode == "deadlinewait" {
 		s.Items[1].Execs[0].Out = "err"
+	}
+	if mode == "cancelfeed" {
+		s.Items[2].Execs[0].Cancel = true // item 2 cancels at once; item 1 is still busy (30 ms) and ignores the context
 	}
 	if mode == "waitcancel" {
 		s.Items[1].Execs[0].Out = "err"   // item 1 fails at once and waits 40 ms for its second attempt
@@ -358,6 +367,12 @@ func init() {
 					n = 12
 				}
 			}
+			if mode == "cancelfeed" { // 30 ms each
+				n = 6
+				if count > 500 {
+					n = 30
+				}
+			}
 			if mode == "waitcancel" { // 50 ms each
 				n = 6
 				if count > 500 {
@@ -365,7 +380,7 @@ func init() {
 				}
 			}
 			if mode == "storm" { // cheap, and the race windows it aims at are nanoseconds wide: many rounds
-				n = 150
+				n = 300
 				if count > 500 {
 					n = 2000
 				}
